@@ -628,7 +628,9 @@ def run_property(modname, tier, seed):
         "wall_s": round(wall, 2),
         "violations": 0 if violation is None else 1,
     }
-    with open(os.path.join(VERIF, "evidence", "%s.json" % pid), "w") as fh:
+    evdir = os.environ.get("VERIF_EVIDENCE_DIR") or os.path.join(VERIF, "evidence")
+    os.makedirs(evdir, exist_ok=True)
+    with open(os.path.join(evdir, "%s.json" % pid), "w") as fh:
         json.dump(evidence, fh, indent=1, sort_keys=True)
         fh.write("\n")
 
@@ -638,7 +640,8 @@ def run_property(modname, tier, seed):
         print("OK property=%s tier=%s seed=%d obligations=%d/%d correspondence=%d oracle=%d wall=%.1fs" %
               (pid, tier, seed, discharged, obligations, n_corr, n_orc, wall))
         return 0
-    rp = os.path.join("replays", "%s_%s_%d.json" % (pid, tier, seed))
+    rp = os.path.join(os.environ.get("VERIF_REPLAY_DIR") or "replays", "%s_%s_%d.json" % (pid, tier, seed))
+    os.makedirs(os.path.dirname(os.path.join(VERIF, rp)), exist_ok=True)
     with open(os.path.join(VERIF, rp), "w") as fh:
         json.dump(violation, fh, indent=1, sort_keys=True)
         fh.write("\n")
